@@ -107,6 +107,9 @@ func (g *Graph) getTableBackedEdge(key string, load bool) *gripql.Edge {
 	table := parts[0]
 	id := parts[1]
 	edgeSchema := g.schema.GetEdge(table)
+	if edgeSchema == nil {
+		return nil
+	}
 	gidField := edgeSchema.GidField
 	q := fmt.Sprintf("SELECT * FROM %s WHERE %s=%s", table, gidField, id)
 	data := make(map[string]interface{})
@@ -132,10 +135,16 @@ func (g *Graph) GetEdge(key string, load bool) *gdbi.Edge {
 		return nil
 	}
 	table := parts[0]
+	var edge *gripql.Edge
 	if table == "generated" {
-		return gdbi.NewElementFromEdge(g.getGeneratedEdge(key, load))
+		edge = g.getGeneratedEdge(key, load)
+	} else {
+		edge = g.getTableBackedEdge(key, load)
 	}
-	return gdbi.NewElementFromEdge(g.getTableBackedEdge(key, load))
+	if edge == nil {
+		return nil
+	}
+	return gdbi.NewElementFromEdge(edge)
 }
 
 // GetVertexList produces a channel of all vertices in the graph
